@@ -309,7 +309,7 @@ Definition all_hwires (s : state) (n : id) : option (list href) :=
   option_map (flat_map (hwires_at s)) (all_ipaths s n).
 
 (* ------------------------------------------------------------------------------------------ *)
-(* HRef.get_all_hrefs_of_instances: upward bound set, then downward search from the top         *)
+(* HRef.get_all_hrefs_of_instances: upward bound set, then downward search from the tops reached *)
 
 (* first loop: every instance of every definition that (transitively) contains a target.
    Elements are marked when pushed, so each is pushed once; fuel = pops. *)
@@ -348,22 +348,36 @@ Fixpoint search_down (s : state) (insts bound : list id) (fuel : nat) (h : href)
       end
   end.
 
-(* netlist = reference.library.netlist of the first instance handed in *)
+(* the set `instances | bound` *)
+Fixpoint set_of (l : list id) : list id :=
+  match l with
+  | [] => []
+  | x :: l' => if memb x l' then set_of l' else x :: set_of l'
+  end.
+
+(* no netlist is handed in: the search starts at every top instance the upward walk has reached,
+   i.e. at the members x of  instances | bound  for which HRef(x).is_valid (x is the top instance of
+   the netlist that holds the definition it references). What the instances reference plays no
+   part. *)
+Definition reached_tops (s : state) (insts bound : list id) : list id :=
+  filter (fun x => is_valid s [x]) (set_of (insts ++ bound)).
+
 Definition hrefs_of_instances (s : state) (insts : list id) : option (list href) :=
-  match insts with
-  | [] => Some []
-  | x0 :: _ =>
-      match root_netlist s x0 with
-      | None => Some []
-      | Some n =>
-          match top s n with
-          | None => None  (* the code dereferences None here *)
-          | Some t =>
-              match bound_close s (S (length insts + next s)) insts [] with
-              | None => None
-              | Some bound => search_down s insts bound (depth_fuel s) [t]
-              end
-          end
+  match bound_close s (S (length insts + next s)) insts [] with
+  | None => None
+  | Some bound =>
+      flat_opt (fun t => search_down s insts bound (depth_fuel s) [t]) (reached_tops s insts bound)
+  end.
+
+(* a netlist is handed in: the search starts at its top instance, whatever it references (no top
+   instance: the code raises AttributeError on None.reference - no answer) *)
+Definition hrefs_of_instances_in (s : state) (insts : list id) (n : id) : option (list href) :=
+  match bound_close s (S (length insts + next s)) insts [] with
+  | None => None
+  | Some bound =>
+      match top s n with
+      | None => None
+      | Some t => search_down s insts bound (depth_fuel s) [t]
       end
   end.
 
